@@ -160,7 +160,7 @@ def finish(pid, tier, seed, results, skipped, fatal, t0, out, extra=()):
         for k, v in d['probes'].items():
             probes[k] = probes.get(k, 0) + v
         for k, v in d['hist'].items():
-            hist[k] = hist.get(k, 0) + v
+            hist[k] = max(hist.get(k, 0), v) if k.startswith('max:') else hist.get(k, 0) + v
         harness.extend(d['harness'])
         samples.extend(d['samples'])
         for c, s, n in d.get('violation_counts', []):
@@ -211,6 +211,9 @@ def finish(pid, tier, seed, results, skipped, fatal, t0, out, extra=()):
         fatal.append('HARNESS-ERROR candidate %s/%s did not reproduce from %s: %s' % (v['cls'], v['site'], path, json.dumps(conf)[:500]))
 
     wall = time.time() - t0
+    used = hist.get('max:tick_budget_used_permille', 0)
+    if used > 250:
+        print('WARNING: some call used %d/1000 of its tick budget (margin below 4x)' % used, file=out)
     zero = [p for p in meta.get('expected_probes', []) if probes.get(p, 0) == 0]
     for p in zero:
         print('WARNING: probe %s never fired in this run' % p, file=out)
